@@ -351,6 +351,13 @@ def run_case(desc):
         specs = [spec0, spec1]
         nv = [0, len(evolutions)]
         lead = not renamed and not sql_target and rng.random() < 0.5
+        # the whole app lives on `other`: the late evolution also carries a
+        # plain SQLMutation creating a helper table; on `default` the app has
+        # nothing to evolve (its evolutions are only recorded there), so the
+        # helper table may only appear on `other`
+        aux = not renamed and not sql_target and \
+            set(routes.values()) == {'other'}
+        lead = lead or aux
         if lead:
             # one database is taken two versions ahead before the other one
             # is touched; the last evolution names an earlier one of the
@@ -362,6 +369,11 @@ def run_case(desc):
                     ['y', {'kind': 'Integer', 'null': True}])
                 t3.append("AddField(%r, 'y', models.IntegerField, "
                           "null=True)" % m)
+            if aux:
+                t3.append("SQLMutation('aux_table', ['CREATE TABLE "
+                          "\"app1_aux\" (\"id\" integer NOT NULL PRIMARY "
+                          "KEY)'])")
+                stats['helper_table_projects'] = 1
             evolutions.append(('e_late', t3,
                                {'AFTER_EVOLUTIONS': [('app1', 'e1')]}))
             specs.append(spec2)
@@ -457,6 +469,8 @@ def run_case(desc):
             # compared with what this database owned before)
             want = owned_by(spec1 if ev['outcome']['ok'] else spec_prev,
                             routes, alias)
+            if aux and alias == 'other' and at[alias] == 2:
+                want = want | {'app1_aux'}
             if set(after) != want:
                 items.append(dict(ctx, type='TABLES_WRONG',
                                   missing=sorted(want - set(after)),
